@@ -179,6 +179,141 @@ theorem pri_ack (c : SlaveConn) (l : LL) (now : Nat) (acd : Bool) (a : Int) (us 
   unfold SlaveConn.setState
   cases acd <;> simp [SlaveConn.core] <;> split <;> simp
 
+/-! ### the unbalanced primary with a single slave -/
+
+/-- `PriU.onMessage` seen from the one connection object -/
+def recvMsg (c : SlaveConn) (l : LL) (now n : Nat) : SlaveConn × LL × List Obs :=
+  match parseBP l n with
+  | none => (c, l, [])
+  | some h =>
+    if h.single then c.handle l now 0 false false (-1) 0 0
+    else if h.c / 64 % 2 = 1 then (c, l, [])
+    else if (c.address : Int) = (h.address : Int) then
+      c.handle l now (h.c % 16) (h.c / 32 % 2 = 1) (h.c / 16 % 2 = 1) h.address h.udStart h.udLen
+    else (c, l, [])
+
+/-- the reception part of `PriU.run` seen from the one connection object -/
+def connRecv (c : SlaveConn) (l : LL) (q : List Nat) (now : Nat) : SlaveConn × LL × List Obs :=
+  let r := readNext l.p.addrLen q l.buf
+  let l := { l with buf := r.2.1 }
+  match r.2.2 with
+  | none => (c, l, [])
+  | some n => recvMsg c l now n
+
+/-- a primary serving exactly the slave `c` -/
+def single (c : SlaveConn) (l : LL) : PriU := { ll := l, slaves := [c], cur := some 0, curIdx := 0, bcast := none }
+
+theorem runSM_single (c : SlaveConn) (l : LL) (now : Nat) :
+    (single c l).runSM now = (single (c.run l now).1 (c.run l now).2.1, (c.run l now).2.2) := by
+  unfold PriU.runSM single
+  simp only [List.isEmpty_cons, Bool.false_eq_true, if_false]
+  cases hw : c.waiting <;> simp [hw]
+
+theorem handle_single_hit (c : SlaveConn) (l : LL) (now fc : Nat) (acd dfc : Bool) (address : Int) (us : Nat) (ul : Int)
+    (h : address = -1 ∨ (c.address : Int) = address) :
+    (single c l).handle now fc acd dfc address us ul =
+      (single (c.handle l now fc acd dfc address us ul).1 (c.handle l now fc acd dfc address us ul).2.1,
+       (c.handle l now fc acd dfc address us ul).2.2) := by
+  unfold PriU.handle PriU.findIdx single
+  rcases h with h | h
+  · subst h
+    simp
+  · by_cases hm : address = -1
+    · subst hm; simp
+    · simp [hm, h, List.findIdx?_cons]
+
+theorem handle_single_miss (c : SlaveConn) (l : LL) (now fc : Nat) (acd dfc : Bool) (address : Int) (us : Nat) (ul : Int)
+    (h1 : address ≠ -1) (h2 : (c.address : Int) ≠ address) :
+    (single c l).handle now fc acd dfc address us ul = (single c l, []) := by
+  unfold PriU.handle PriU.findIdx single
+  simp [h1, h2, List.findIdx?_cons]
+
+/-- **`LinkLayerPrimaryUnbalanced_run` with one slave is: receive for that connection, then run its state machine** -/
+theorem priU_run_single (c : SlaveConn) (l : LL) (q : List Nat) (now : Nat) :
+    (single c l).run q now =
+      (single ((connRecv c l q now).1.run (connRecv c l q now).2.1 now).1 ((connRecv c l q now).1.run (connRecv c l q now).2.1 now).2.1,
+       (readNext l.p.addrLen q l.buf).1,
+       (connRecv c l q now).2.2 ++ ((connRecv c l q now).1.run (connRecv c l q now).2.1 now).2.2) := by
+  have key : ∀ (l' : LL) (n : Nat), (single c l').onMessage now n =
+      (single (recvMsg c l' now n).1 (recvMsg c l' now n).2.1, (recvMsg c l' now n).2.2) := by
+    intro l' n
+    unfold PriU.onMessage recvMsg
+    have hll : (single c l').ll = l' := rfl
+    rw [hll]
+    cases hp : parseBP l' n with
+    | none => rfl
+    | some h =>
+      simp only
+      by_cases hs : h.single = true
+      · simp only [hs, if_true]
+        exact handle_single_hit c l' now 0 false false (-1) 0 0 (Or.inl rfl)
+      · simp only [hs, if_false, Bool.false_eq_true]
+        by_cases hprm : h.c / 64 % 2 = 1
+        · simp only [hprm, if_true]
+        · simp only [hprm, if_false]
+          by_cases had : (c.address : Int) = (h.address : Int)
+          · simp only [had, if_true]
+            exact handle_single_hit c l' now _ _ _ _ _ _ (Or.inr had)
+          · simp only [had, if_false]
+            exact handle_single_miss c l' now _ _ _ _ _ _ (by omega) had
+  unfold PriU.run connRecv
+  have hl : (single c l).ll = l := rfl
+  rw [hl]
+  generalize readNext l.p.addrLen q l.buf = r
+  obtain ⟨q', buf, m⟩ := r
+  simp only
+  have hs : ({ (single c l) with ll := { l with buf := buf } } : PriU) = single c { l with buf := buf } := rfl
+  rw [hs]
+  cases m with
+  | none => simp only [runSM_single]
+  | some n => simp only [key, runSM_single]
+
+/-- **the master receives the slave's acknowledgement of its outstanding data frame** (fixed frame FC 0 or the
+single character): idle again, message gone, bit kept -/
+theorem ack_response (c : SlaveConn) (l : LL) (v : View) (acd singleOk : Bool) (A : List Nat) (now : Nat) (h4 : c.pstate = 4)
+    (hadr : c.address = v.address) (hw : l.p.addrLen = v.p.addrLen) (ha : AddrOk v.p.addrLen v.address)
+    (hA : A ∈ ackBytes v acd singleOk) :
+    (connRecv c l A now).1.core = (c.address, 3, false, c.msg, c.origSend, c.testFn, c.nextFcb) ∧
+    (connRecv c l A now).2.1.p = l.p := by
+  unfold ackBytes at hA
+  by_cases hs : (v.p.singleAck && singleOk) = true
+  · rw [if_pos hs] at hA
+    have hRf : A = singleChar := by simpa using hA
+    subst hRf
+    have hrecv : connRecv c l singleChar now = c.handle { l with buf := writeAt l.buf 0 [0xe5] } now 0 false false (-1) 0 0 := by
+      unfold connRecv singleChar
+      simp only [readNext]
+      unfold recvMsg parseBP
+      have : g (writeAt l.buf 0 [0xe5]) 0 = 0xe5 := by unfold writeAt g; simp
+      simp [this]
+    rw [hrecv]
+    obtain ⟨p1, p2⟩ := pri_ack c { l with buf := writeAt l.buf 0 [0xe5] } now false (-1) 0 0 h4
+    rw [p1, p2]
+    exact ⟨rfl, rfl⟩
+  · rw [if_neg hs] at hA
+    have hRf : A = fixedFrame v.p.addrLen (ctrl 0 false false acd false) v.address := by simpa using hA
+    subst hRf
+    have r1 := readNext_fixedFrame l.p.addrLen (ctrl 0 false false acd false) v.address l.buf l.p.hA
+    rw [hw] at r1
+    have hp := parseBP_fixedFrame { l with buf := fixedFrame v.p.addrLen (ctrl 0 false false acd false) v.address ++ l.buf.drop (4 + v.p.addrLen) }
+      (ctrl 0 false false acd false) v.address (l.buf.drop (4 + v.p.addrLen))
+      (by show AddrOk l.p.addrLen v.address; rw [hw]; exact ha) (by show _ = fixedFrame l.p.addrLen _ _ ++ _; rw [hw]) (4 + v.p.addrLen)
+    obtain ⟨cd1, cd2, cd3, cd4⟩ := ctrl_decode_sec 0 acd false (by decide)
+    have hrecv : connRecv c l (fixedFrame v.p.addrLen (ctrl 0 false false acd false) v.address) now =
+        c.handle { l with buf := fixedFrame v.p.addrLen (ctrl 0 false false acd false) v.address ++ l.buf.drop (4 + v.p.addrLen) }
+          now 0 acd false (v.address : Int) 0 0 := by
+      unfold connRecv
+      rw [hw, r1]
+      simp only
+      unfold recvMsg
+      rw [hp]
+      simp only [Bool.false_eq_true, if_false, cd2, show (0 : Nat) ≠ 1 by decide, hadr, if_true, cd1,
+        decide_bit _ 32 _ cd3, decide_bit _ 16 _ cd4]
+    rw [hrecv]
+    obtain ⟨p1, p2⟩ := pri_ack c _ now acd (v.address : Int) 0 0 h4
+    rw [p1, p2]
+    exact ⟨rfl, rfl⟩
+
 /-! ### master and slave together -/
 
 /-- the master's connection object for the slave, the master's link layer, the slave -/
@@ -190,7 +325,7 @@ structure Sys where
 /-- one transfer: the application hands `d` to the idle connection; the master's state machine runs at `t0`
 (writes the frame) and then at the times `waits` (each run may retransmit); copies of the frame reach the slave at
 the times `t :: ts` (at least one gets through, any number of duplicates); at `tAck` one of the slave's
-acknowledgements (ACD as it may be) reaches the master -/
+(identical) acknowledgements reaches the master -/
 structure Transfer where
   d : List Nat
   t0 : Nat
@@ -198,7 +333,6 @@ structure Transfer where
   t : Nat
   ts : List Nat
   tAck : Nat
-  acd : Bool
 
 /-- the master's runs while it waits -/
 def waitRuns (c : SlaveConn) (l : LL) : List Nat → SlaveConn × LL × List Obs
@@ -215,7 +349,8 @@ def Sys.transfer (y : Sys) (k : Transfer) : Sys × List Obs × List (List Nat) :
   let f := (txB r.2.2).headD []
   let w := waitRuns r.1 r.2.1 k.waits
   let rs := y.s.runMany f (k.t :: k.ts)
-  let h := w.1.handle w.2.1 k.tAck 0 k.acd false y.c.address 0 0
+  let A := (txB rs.2).headD []
+  let h := connRecv w.1 w.2.1 A k.tAck
   ({ c := h.1, lm := h.2.1, s := rs.1 }, rs.2, txB r.2.2 ++ txB w.2.2)
 
 def Sys.transfers (y : Sys) : List Transfer → Sys × List Obs × List (List Nat)
@@ -304,20 +439,27 @@ theorem transfer_spec (y : Sys) (k : Transfer) (hy : Sync y) (hk : k.Ok y) :
     rw [← hy.width, hy.bit, ← hy.addr]; exact hf
   obtain ⟨s1, s2, s3⟩ := runMany_once y.s.view k.d f hy.addrOk hvs hy.queues hd k.t k.ts y.s rfl
   -- the acknowledgement
-  obtain ⟨a1, a2⟩ := pri_ack (waitRuns (c1.run y.lm k.t0).1 (c1.run y.lm k.t0).2.1 k.waits).1
-    (waitRuns (c1.run y.lm k.t0).1 (c1.run y.lm k.t0).2.1 k.waits).2.1 k.tAck k.acd y.c.address 0 0 (by rw [v2, q2])
+  obtain ⟨A, hA⟩ : ∃ A, ackBytes y.s.view (!y.s.view.c1.isEmpty) (!(!y.s.view.c1.isEmpty)) = [A] := by
+    unfold ackBytes; split <;> exact ⟨_, rfl⟩
+  have hAhead : (txB (y.s.runMany f (k.t :: k.ts)).2).headD [] = A := by
+    rw [s3]
+    show (List.replicate (k.ts.length + 1) (ackBytes y.s.view (!y.s.view.c1.isEmpty) (!(!y.s.view.c1.isEmpty)))).flatten.headD [] = A
+    rw [hA]; simp [List.replicate_succ]
+  obtain ⟨a1, a2⟩ := ack_response (waitRuns (c1.run y.lm k.t0).1 (c1.run y.lm k.t0).2.1 k.waits).1
+    (waitRuns (c1.run y.lm k.t0).1 (c1.run y.lm k.t0).2.1 k.waits).2.1 y.s.view (!y.s.view.c1.isEmpty) (!(!y.s.view.c1.isEmpty)) A k.tAck
+    (by rw [v2, q2]) (by rw [v1, q1]; exact hy.addr) (by rw [w2, p3]; exact hy.width) hy.addrOk (by rw [hA]; simp)
   simp only [SlaveConn.core, Prod.mk.injEq] at a1
   obtain ⟨b1, b2, b3, b4, b5, b6, b7⟩ := a1
   have hhead : (txB (c1.run y.lm k.t0).2.2).headD [] = f := by rw [p1]; rfl
-  have ht : y.transfer k = (⟨((waitRuns (c1.run y.lm k.t0).1 (c1.run y.lm k.t0).2.1 k.waits).1.handle
-        (waitRuns (c1.run y.lm k.t0).1 (c1.run y.lm k.t0).2.1 k.waits).2.1 k.tAck 0 k.acd false y.c.address 0 0).1,
-      ((waitRuns (c1.run y.lm k.t0).1 (c1.run y.lm k.t0).2.1 k.waits).1.handle
-        (waitRuns (c1.run y.lm k.t0).1 (c1.run y.lm k.t0).2.1 k.waits).2.1 k.tAck 0 k.acd false y.c.address 0 0).2.1,
+  have ht : y.transfer k = (⟨(connRecv (waitRuns (c1.run y.lm k.t0).1 (c1.run y.lm k.t0).2.1 k.waits).1
+        (waitRuns (c1.run y.lm k.t0).1 (c1.run y.lm k.t0).2.1 k.waits).2.1 A k.tAck).1,
+      (connRecv (waitRuns (c1.run y.lm k.t0).1 (c1.run y.lm k.t0).2.1 k.waits).1
+        (waitRuns (c1.run y.lm k.t0).1 (c1.run y.lm k.t0).2.1 k.waits).2.1 A k.tAck).2.1,
       (y.s.runMany f (k.t :: k.ts)).1⟩,
       (y.s.runMany f (k.t :: k.ts)).2,
       txB (c1.run y.lm k.t0).2.2 ++ txB (waitRuns (c1.run y.lm k.t0).1 (c1.run y.lm k.t0).2.1 k.waits).2.2) := by
     unfold Sys.transfer
-    simp only [← hc1, hhead]
+    simp only [← hc1, hhead, hAhead]
   rw [ht]
   refine ⟨?_, s2, (by show _ = y.lm.p; rw [a2, w2, p3]), f, hf, ?_, ?_⟩
   · constructor
@@ -357,5 +499,558 @@ theorem transfers_spec : ∀ (ks : List Transfer) (y : Sys), Sync y →
     unfold Sys.transfers
     simp only [rxOf_append]
     exact ⟨a2, by rw [b, b2]; rfl⟩
+
+/-! ## slave → master: polls -/
+
+theorem answer_lastReceived (s : SecU) (a : Option (List Nat)) :
+    (s.answer a).1.lastReceived = s.lastReceived ∧ (s.answer a).1.idleTimeout = s.idleTimeout := by
+  unfold SecU.answer
+  simp only
+  split
+  · exact ⟨rfl, rfl⟩
+  · split <;> exact ⟨rfl, rfl⟩
+
+theorem poll_lastReceived (s : SecU) (cls1 fcb fcv : Bool) :
+    (s.poll cls1 fcb fcv).1.lastReceived = s.lastReceived ∧ (s.poll cls1 fcb fcv).1.idleTimeout = s.idleTimeout := by
+  unfold SecU.poll
+  simp only
+  refine ⟨(answer_lastReceived _ _).1.trans ?_, (answer_lastReceived _ _).2.trans ?_⟩
+  · repeat' split
+    all_goals rfl
+  · repeat' split
+    all_goals rfl
+
+theorem request_poll_lastReceived (s : SecU) (b : List Nat) (cls1 fcb : Bool) :
+    (s.request (.poll b cls1) fcb).1.lastReceived = s.lastReceived ∧
+    (s.request (.poll b cls1) fcb).1.idleTimeout = s.idleTimeout := by
+  obtain ⟨b1, b2⟩ := setState_lastReceived ({ s with ll := { s.ll with buf := (Req.poll b cls1).buf } } : SecU) 3
+  obtain ⟨a1, a2⟩ := poll_lastReceived (({ s with ll := { s.ll with buf := (Req.poll b cls1).buf } } : SecU).setState 3).1 cls1 fcb true
+  unfold SecU.request SecU.handleMessage
+  cases cls1
+  · simp only [Bool.false_eq_true, if_false, show (11 : Nat) ≠ 9 by decide, show ¬ ((11 : Nat) = 0 ∨ (11 : Nat) = 7) by decide, if_true]
+    exact ⟨by rw [a1, b1], by rw [a2, b2]⟩
+  · simp only [if_true, show (10 : Nat) ≠ 9 by decide, show ¬ ((10 : Nat) = 0 ∨ (10 : Nat) = 7) by decide, if_false,
+      show (10 : Nat) ≠ 11 by decide]
+    exact ⟨by rw [a1, b1], by rw [a2, b2]⟩
+
+/-- the function code of a class-1 / class-2 request -/
+def pollFc (cls1 : Bool) : Nat := if cls1 then 10 else 11
+
+/-- **the slave's `run` on the octets of a class-1/2 request from the master's encoder is the request `Req.poll`** -/
+theorem secU_run_poll (s : SecU) (cls1 fcb : Bool) (now : Nat) (ha : AddrOk s.ll.p.addrLen s.ll.address) :
+    s.run (fixedFrame s.ll.p.addrLen (ctrl (pollFc cls1) true false fcb true) s.ll.address) now =
+      ((({ s with lastReceived := now } : SecU).request
+          (.poll (fixedFrame s.ll.p.addrLen (ctrl (pollFc cls1) true false fcb true) s.ll.address ++ s.ll.buf.drop (4 + s.ll.p.addrLen)) cls1) fcb).1, [],
+       (({ s with lastReceived := now } : SecU).request
+          (.poll (fixedFrame s.ll.p.addrLen (ctrl (pollFc cls1) true false fcb true) s.ll.address ++ s.ll.buf.drop (4 + s.ll.p.addrLen)) cls1) fcb).2) := by
+  have r1 := readNext_fixedFrame s.ll.p.addrLen (ctrl (pollFc cls1) true false fcb true) s.ll.address s.ll.buf s.ll.p.hA
+  have hh := secHeader_fixedFrame
+    { s.ll with buf := fixedFrame s.ll.p.addrLen (ctrl (pollFc cls1) true false fcb true) s.ll.address ++ s.ll.buf.drop (4 + s.ll.p.addrLen) }
+    (pollFc cls1) fcb true (s.ll.buf.drop (4 + s.ll.p.addrLen)) (by unfold pollFc; split <;> decide) ha rfl (4 + s.ll.p.addrLen)
+  obtain ⟨q1, q2⟩ := request_poll_lastReceived ({ s with lastReceived := now } : SecU)
+    (fixedFrame s.ll.p.addrLen (ctrl (pollFc cls1) true false fcb true) s.ll.address ++ s.ll.buf.drop (4 + s.ll.p.addrLen)) cls1 fcb
+  unfold SecU.run
+  rw [r1]
+  simp only
+  unfold SecU.parse
+  simp only [hh]
+  have e : (({ s with ll := { s.ll with buf := fixedFrame s.ll.p.addrLen (ctrl (pollFc cls1) true false fcb true) s.ll.address ++ s.ll.buf.drop (4 + s.ll.p.addrLen) }, lastReceived := now } : SecU).handleMessage (pollFc cls1) false fcb true 0 0)
+      = ({ s with lastReceived := now } : SecU).request
+          (.poll (fixedFrame s.ll.p.addrLen (ctrl (pollFc cls1) true false fcb true) s.ll.address ++ s.ll.buf.drop (4 + s.ll.p.addrLen)) cls1) fcb := by
+    unfold SecU.request pollFc
+    cases cls1 <;> rfl
+  rw [e]
+  generalize hR : ({ s with lastReceived := now } : SecU).request
+          (.poll (fixedFrame s.ll.p.addrLen (ctrl (pollFc cls1) true false fcb true) s.ll.address ++ s.ll.buf.drop (4 + s.ll.p.addrLen)) cls1) fcb = R at q1 q2
+  have hidle : ¬ (R.1.state ≠ 0 ∧ now - R.1.lastReceived > R.1.idleTimeout) := by
+    rw [q1]; simp
+  rw [if_neg hidle]
+  simp
+
+/-- the poll frame the master writes for a station with view `v` -/
+def pollFrame (v : View) (cls1 fcb : Bool) : List Nat :=
+  fixedFrame v.p.addrLen (ctrl (pollFc cls1) true false fcb true) v.address
+
+theorem runMany_poll_rejected (v : View) (cls1 fcb : Bool) (ha : AddrOk v.p.addrLen v.address) (hq : v.QueuesOk)
+    (hne : fcb ≠ v.expectedFcb) : ∀ (ts : List Nat) (s : SecU), s.view = v →
+    (s.runMany (pollFrame v cls1 fcb) ts).1.view = v ∧ rxOf (s.runMany (pollFrame v cls1 fcb) ts).2 = [] ∧
+    txB (s.runMany (pollFrame v cls1 fcb) ts).2 = (List.replicate ts.length (pollBytes v)).flatten := by
+  intro ts
+  induction ts with
+  | nil => intro s hs; exact ⟨hs, rfl, rfl⟩
+  | cons t ts ih =>
+    intro s hs
+    have hp : s.ll.p = v.p := by rw [← hs]; rfl
+    have had : s.ll.address = v.address := by rw [← hs]; rfl
+    have hrun := secU_run_poll s cls1 fcb t (by rw [hp, had]; exact ha)
+    rw [hp, had] at hrun
+    obtain ⟨s', hs'⟩ : ∃ s', s' = ({ s with lastReceived := t } : SecU) := ⟨_, rfl⟩
+    rw [← hs'] at hrun
+    have hsv : s'.view = v := by rw [hs']; exact hs
+    have he : s'.expectedFcb = v.expectedFcb := by rw [← hsv]; rfl
+    obtain ⟨a, b, c⟩ := request_spec s'
+      (.poll (fixedFrame v.p.addrLen (ctrl (pollFc cls1) true false fcb true) v.address ++ s.ll.buf.drop (4 + v.p.addrLen)) cls1) fcb (by rw [hsv]; exact hq)
+    rw [he, if_neg hne, hsv] at a
+    rw [he, if_neg hne] at c
+    rw [a] at b
+    obtain ⟨a2, b2, c2⟩ := ih _ a
+    unfold SecU.runMany pollFrame
+    simp only [hrun, txB_append, rxOf_append]
+    unfold pollFrame at a2 b2 c2
+    rw [a2, b2, c2, b, c]
+    exact ⟨rfl, rfl, by simp [List.replicate_succ, View.resp]⟩
+
+/-- **copies of a poll carrying the expected bit: the queue of the polled class is served once, every copy gets
+the same response** -/
+theorem runMany_poll_once (v : View) (cls1 : Bool) (ha : AddrOk v.p.addrLen v.address) (hq : v.QueuesOk)
+    (t : Nat) (ts : List Nat) (s : SecU) (hs : s.view = v) :
+    (s.runMany (pollFrame v cls1 v.expectedFcb) (t :: ts)).1.view = v.accept (.poll [] cls1) ∧
+    rxOf (s.runMany (pollFrame v cls1 v.expectedFcb) (t :: ts)).2 = [] ∧
+    txB (s.runMany (pollFrame v cls1 v.expectedFcb) (t :: ts)).2 =
+      (List.replicate (ts.length + 1) (pollBytes (v.accept (.poll [] cls1)))).flatten := by
+  have hp : s.ll.p = v.p := by rw [← hs]; rfl
+  have had : s.ll.address = v.address := by rw [← hs]; rfl
+  have hrun := secU_run_poll s cls1 v.expectedFcb t (by rw [hp, had]; exact ha)
+  rw [hp, had] at hrun
+  obtain ⟨s', hs'⟩ : ∃ s', s' = ({ s with lastReceived := t } : SecU) := ⟨_, rfl⟩
+  rw [← hs'] at hrun
+  have hsv : s'.view = v := by rw [hs']; exact hs
+  have he : s'.expectedFcb = v.expectedFcb := by rw [← hsv]; rfl
+  obtain ⟨a, b, c⟩ := request_spec s'
+    (.poll (fixedFrame v.p.addrLen (ctrl (pollFc cls1) true false v.expectedFcb true) v.address ++ s.ll.buf.drop (4 + v.p.addrLen)) cls1) v.expectedFcb (by rw [hsv]; exact hq)
+  rw [he, hsv] at a
+  simp only [if_true] at a
+  rw [he] at c
+  simp only [if_true] at c
+  rw [a] at b
+  have hacc : v.accept (.poll (fixedFrame v.p.addrLen (ctrl (pollFc cls1) true false v.expectedFcb true) v.address ++ s.ll.buf.drop (4 + v.p.addrLen)) cls1)
+      = v.accept (.poll [] cls1) := by cases cls1 <;> rfl
+  rw [hacc] at a b
+  have hne : v.expectedFcb ≠ (v.accept (.poll [] cls1)).expectedFcb := by
+    rw [accept_toggles]; cases v.expectedFcb <;> decide
+  have hpa : (v.accept (.poll [] cls1)).p = v.p ∧ (v.accept (.poll [] cls1)).address = v.address := by cases cls1 <;> exact ⟨rfl, rfl⟩
+  have hfr : pollFrame (v.accept (.poll [] cls1)) cls1 v.expectedFcb = pollFrame v cls1 v.expectedFcb := by
+    unfold pollFrame; rw [hpa.1, hpa.2]
+  obtain ⟨a2, b2, c2⟩ := runMany_poll_rejected (v.accept (.poll [] cls1)) cls1 v.expectedFcb
+    (by rw [hpa.1, hpa.2]; exact ha) (accept_queuesOk _ _ hq) hne ts _ a
+  rw [hfr] at a2 b2 c2
+  have hrun' : s.run (pollFrame v cls1 v.expectedFcb) t = _ := hrun
+  unfold SecU.runMany
+  simp only [hrun', txB_append, rxOf_append]
+  rw [a2, b2, c2, b, c]
+  exact ⟨rfl, rfl, by simp [List.replicate_succ, View.resp, Req.payload]⟩
+
+/-! ### the master's side of a poll -/
+
+/-- what the master hands to its application (`UserData` callback), in order -/
+def udOf (o : List Obs) : List (List Nat) :=
+  o.filterMap (fun x => match x with | .ud _ d => some d | _ => none)
+
+@[simp] theorem udOf_append (a b : List Obs) : udOf (a ++ b) = udOf a ++ udOf b := by simp [udOf]
+@[simp] theorem udOf_nil : udOf [] = [] := rfl
+
+/-- fields of the connection object relevant to a poll in progress -/
+def SlaveConn.pcore (c : SlaveConn) : Nat × Nat × Bool × Nat × Bool × Bool × Nat :=
+  (c.address, c.pstate, c.hasMsg, c.origSend, c.testFn, c.nextFcb, c.lastReq)
+
+/-- idle master with a pending class-1/2 request: the request frame is written with the current bit -/
+theorem pri_poll_send (c : SlaveConn) (l : LL) (now : Nat) (h3 : c.pstate = 3) (ht : c.testFn = false) (hm : c.hasMsg = false)
+    (hr : c.req1 = true ∨ c.req2 = true) :
+    txB (c.run l now).2.2 = [fixedFrame l.p.addrLen (ctrl (pollFc c.req1) true false c.nextFcb true) c.address] ∧
+    (c.run l now).1.pcore = (c.address, 5, false, now, false, !c.nextFcb, pollFc c.req1) ∧ (c.run l now).2.1.p = l.p := by
+  unfold SlaveConn.run
+  have hr' : (c.req1 = true ∨ c.req2 = true) := hr
+  simp only [h3, ht, hm, show (3 : Nat) ≠ 7 by decide, show (3 : Nat) ≠ 0 by decide, show (3 : Nat) ≠ 1 by decide,
+    show (3 : Nat) ≠ 2 by decide, if_false, if_true, Bool.false_eq_true, hr']
+  cases h1 : c.req1
+  · simp [SlaveConn.pcore, pollFc, hm, ht, LL.sendFixed, txB]
+  · simp [SlaveConn.pcore, pollFc, hm, ht, LL.sendFixed, txB]
+
+/-- waiting for the response, before the repeat timeout: nothing but the identical request is written -/
+theorem pri_poll_wait (c : SlaveConn) (l : LL) (now : Nat) (h5 : c.pstate = 5) (hr : ¬ now > c.origSend + l.p.tRepeat) :
+    (c.run l now).1.pcore = c.pcore ∧ (c.run l now).2.1.p = l.p ∧
+    (txB (c.run l now).2.2 = [] ∨
+     txB (c.run l now).2.2 = [fixedFrame l.p.addrLen (ctrl c.lastReq true false (!c.nextFcb) true) c.address]) := by
+  unfold SlaveConn.run
+  simp only [h5, show (5 : Nat) ≠ 7 by decide, show (5 : Nat) ≠ 0 by decide, show (5 : Nat) ≠ 1 by decide,
+    show (5 : Nat) ≠ 2 by decide, show (5 : Nat) ≠ 3 by decide, show (5 : Nat) ≠ 4 by decide, if_false, if_true]
+  by_cases hg : c.lastSend > now
+  · have ha : ¬ now > now + l.p.tAck := by omega
+    simp [hg, ha, SlaveConn.pcore, h5]
+  · by_cases ha : now > c.lastSend + l.p.tAck
+    · simp [hg, ha, hr, SlaveConn.pcore, h5, LL.sendFixed, txB]
+    · simp [hg, ha, SlaveConn.pcore, h5]
+
+/-- what is left of a poll once its response arrived: idle, nothing else touched -/
+def SlaveConn.idleCore (c : SlaveConn) : Nat × Nat × Bool × Bool × Bool :=
+  (c.address, c.pstate, c.hasMsg, c.testFn, c.nextFcb)
+
+theorem setState_obs (c : SlaveConn) (n : Nat) : udOf (c.setState n).2 = [] ∧ (c.setState n).1.idleCore = c.idleCore ∧
+    (c.setState n).1.lastReq = c.lastReq := by
+  unfold SlaveConn.setState; split <;> exact ⟨rfl, rfl, rfl⟩
+
+/-- the data response (FC 8) to an outstanding request: the user data goes to the application, once; idle again -/
+theorem pri_poll_data (c : SlaveConn) (l : LL) (now : Nat) (acd : Bool) (a : Int) (us : Nat) (ul : Int) (h5 : c.pstate = 5) :
+    udOf (c.handle l now 8 acd false a us ul).2.2 = [userDataOf l.buf us ul] ∧
+    (c.handle l now 8 acd false a us ul).1.idleCore = (c.address, 3, c.hasMsg, c.testFn, c.nextFcb) ∧
+    (c.handle l now 8 acd false a us ul).2.1 = l := by
+  unfold SlaveConn.handle
+  simp only [h5, Bool.false_eq_true, if_false, if_true, show (8 : Nat) ≠ 0 by decide, show (8 : Nat) ≠ 1 by decide,
+    show (8 : Nat) ≠ 11 by decide]
+  unfold SlaveConn.setState
+  cases acd <;> simp [SlaveConn.idleCore, udOf] <;> split <;> simp
+
+/-- "no data" (FC 9, or the single character = FC 0): nothing for the application; idle again -/
+theorem pri_poll_nodata (c : SlaveConn) (l : LL) (now : Nat) (fc : Nat) (acd : Bool) (a : Int) (us : Nat) (ul : Int)
+    (h5 : c.pstate = 5) (hfc : fc = 9 ∨ fc = 0) (ht : c.testFn = false) :
+    udOf (c.handle l now fc acd false a us ul).2.2 = [] ∧
+    (c.handle l now fc acd false a us ul).1.idleCore = (c.address, 3, c.hasMsg, false, c.nextFcb) ∧
+    (c.handle l now fc acd false a us ul).2.1 = l := by
+  unfold SlaveConn.handle
+  rcases hfc with rfl | rfl
+  · simp only [h5, Bool.false_eq_true, if_false, if_true, show (9 : Nat) ≠ 0 by decide, show (9 : Nat) ≠ 1 by decide,
+      show (9 : Nat) ≠ 11 by decide, show (9 : Nat) ≠ 8 by decide]
+    unfold SlaveConn.setState
+    cases acd <;> simp [SlaveConn.idleCore, udOf, ht] <;> split <;> simp [ht]
+  · simp only [h5, Bool.false_eq_true, if_false, if_true, show (5 : Nat) ≠ 2 by decide, show (5 : Nat) ≠ 4 by decide]
+    unfold SlaveConn.setState
+    cases acd <;> simp [SlaveConn.idleCore, udOf, ht] <;> (repeat' split) <;> simp_all
+
+/-- **the master receives the slave's response to its outstanding request**: whatever the response the slave's
+`pollBytes` produced (data, "no data" as fixed frame or as single character), the application gets the data exactly
+when there is some, and the connection is idle again -/
+theorem poll_response (c : SlaveConn) (l : LL) (v : View) (R : List Nat) (now : Nat) (h5 : c.pstate = 5) (ht : c.testFn = false)
+    (hadr : c.address = v.address) (hw : l.p.addrLen = v.p.addrLen) (ha : AddrOk v.p.addrLen v.address)
+    (hR : R ∈ pollBytes v) :
+    udOf (connRecv c l R now).2.2 = (if v.userData.length > 0 then [v.userData] else []) ∧
+    (connRecv c l R now).1.idleCore = (c.address, 3, c.hasMsg, false, c.nextFcb) ∧ (connRecv c l R now).2.1.p = l.p := by
+  unfold pollBytes at hR
+  simp only at hR
+  by_cases hu : v.userData.length > 0
+  · rw [if_pos hu] at hR
+    rw [if_pos hu]
+    cases hvf : varFrame v.p.addrLen (ctrl 8 false false (!v.c1.isEmpty) false) v.address v.userData with
+    | none => rw [hvf] at hR; cases hR
+    | some f =>
+      rw [hvf] at hR
+      have hRf : R = f := by simpa using hR
+      subst hRf
+      obtain ⟨r1, r2⟩ := readNext_varFrame l.p.addrLen _ v.address v.userData R l.buf l.p.hA (by rw [hw]; exact hvf)
+      have hp := parseBP_varFrame { l with buf := R ++ l.buf.drop R.length } _ v.address v.userData R (l.buf.drop R.length)
+        (by show AddrOk l.p.addrLen v.address; rw [hw]; exact ha) (by show varFrame l.p.addrLen _ _ _ = _; rw [hw]; exact hvf) rfl
+      obtain ⟨cd1, cd2, cd3, cd4⟩ := ctrl_decode_sec 8 (!v.c1.isEmpty) false (by decide)
+      have hrecv : connRecv c l R now = c.handle { l with buf := R ++ l.buf.drop R.length } now 8 (!v.c1.isEmpty) false
+          (v.address : Int) (5 + l.p.addrLen) v.userData.length := by
+        unfold connRecv
+        rw [r1]
+        simp only
+        unfold recvMsg
+        rw [hp]
+        simp only [Bool.false_eq_true, if_false, cd2, show (0 : Nat) ≠ 1 by decide, hadr, if_true, cd1,
+          decide_bit _ 32 _ cd3, decide_bit _ 16 _ cd4]
+      rw [hrecv]
+      obtain ⟨p1, p2, p3⟩ := pri_poll_data c { l with buf := R ++ l.buf.drop R.length } now (!v.c1.isEmpty) (v.address : Int)
+        (5 + l.p.addrLen) v.userData.length h5
+      rw [p1, p3]
+      refine ⟨?_, ?_, rfl⟩
+      · show [userDataOf (R ++ l.buf.drop R.length) (5 + l.p.addrLen) v.userData.length] = _
+        rw [r2]
+      · rw [p2, ht]
+  · rw [if_neg hu] at hR
+    rw [if_neg hu]
+    by_cases hs : (v.p.singleAck && !(!v.c1.isEmpty)) = true
+    · rw [if_pos hs] at hR
+      have hRf : R = singleChar := by simpa using hR
+      subst hRf
+      have hrecv : connRecv c l singleChar now = c.handle { l with buf := writeAt l.buf 0 [0xe5] } now 0 false false (-1) 0 0 := by
+        unfold connRecv singleChar
+        simp only [readNext]
+        unfold recvMsg parseBP
+        have : g (writeAt l.buf 0 [0xe5]) 0 = 0xe5 := by unfold writeAt g; simp
+        simp [this]
+      rw [hrecv]
+      obtain ⟨p1, p2, p3⟩ := pri_poll_nodata c { l with buf := writeAt l.buf 0 [0xe5] } now 0 false (-1) 0 0 h5 (Or.inr rfl) ht
+      rw [p1, p2, p3]
+      exact ⟨rfl, rfl, rfl⟩
+    · rw [if_neg hs] at hR
+      have hRf : R = fixedFrame v.p.addrLen (ctrl 9 false false (!v.c1.isEmpty) false) v.address := by simpa using hR
+      subst hRf
+      have r1 := readNext_fixedFrame l.p.addrLen (ctrl 9 false false (!v.c1.isEmpty) false) v.address l.buf l.p.hA
+      rw [hw] at r1
+      have hp := parseBP_fixedFrame { l with buf := fixedFrame v.p.addrLen (ctrl 9 false false (!v.c1.isEmpty) false) v.address ++ l.buf.drop (4 + v.p.addrLen) }
+        (ctrl 9 false false (!v.c1.isEmpty) false) v.address (l.buf.drop (4 + v.p.addrLen))
+        (by show AddrOk l.p.addrLen v.address; rw [hw]; exact ha) (by show _ = fixedFrame l.p.addrLen _ _ ++ _; rw [hw]) (4 + v.p.addrLen)
+      obtain ⟨cd1, cd2, cd3, cd4⟩ := ctrl_decode_sec 9 (!v.c1.isEmpty) false (by decide)
+      have hrecv : connRecv c l (fixedFrame v.p.addrLen (ctrl 9 false false (!v.c1.isEmpty) false) v.address) now =
+          c.handle { l with buf := fixedFrame v.p.addrLen (ctrl 9 false false (!v.c1.isEmpty) false) v.address ++ l.buf.drop (4 + v.p.addrLen) }
+            now 9 (!v.c1.isEmpty) false (v.address : Int) 0 0 := by
+        unfold connRecv
+        rw [hw, r1]
+        simp only
+        unfold recvMsg
+        rw [hp]
+        simp only [Bool.false_eq_true, if_false, cd2, show (0 : Nat) ≠ 1 by decide, hadr, if_true, cd1,
+          decide_bit _ 32 _ cd3, decide_bit _ 16 _ cd4]
+      rw [hrecv]
+      obtain ⟨p1, p2, p3⟩ := pri_poll_nodata c _ now 9 (!v.c1.isEmpty) (v.address : Int) 0 0 h5 (Or.inl rfl) ht
+      rw [p1, p2, p3]
+      exact ⟨rfl, rfl, rfl⟩
+
+theorem pollWaits_spec : ∀ (ws : List Nat) (c : SlaveConn) (l : LL), c.pstate = 5 →
+    (∀ t ∈ ws, ¬ t > c.origSend + l.p.tRepeat) →
+    (waitRuns c l ws).1.pcore = c.pcore ∧ (waitRuns c l ws).2.1.p = l.p ∧
+    ∀ g ∈ txB (waitRuns c l ws).2.2, g = fixedFrame l.p.addrLen (ctrl c.lastReq true false (!c.nextFcb) true) c.address := by
+  intro ws
+  induction ws with
+  | nil => intro c l _ _; exact ⟨rfl, rfl, by simp [waitRuns]⟩
+  | cons t ws ih =>
+    intro c l h5 hw
+    obtain ⟨a, b, e⟩ := pri_poll_wait c l t h5 (hw t (by simp))
+    have ha := a
+    simp only [SlaveConn.pcore, Prod.mk.injEq] at ha
+    obtain ⟨a1, a2, a3, a4, a5, a6, a7⟩ := ha
+    obtain ⟨a', b', e'⟩ := ih (c.run l t).1 (c.run l t).2.1 (by rw [a2, h5])
+      (by intro t' ht'; rw [a4, b]; exact hw t' (by simp [ht']))
+    unfold waitRuns
+    simp only [txB_append]
+    refine ⟨by rw [a', a], by rw [b', b], ?_⟩
+    intro g hg
+    rcases List.mem_append.mp hg with hg | hg
+    · rcases e with e | e
+      · rw [e] at hg; cases hg
+      · rw [e] at hg; simpa using hg
+    · have := e' g hg
+      rw [this, b, a7, a6, a1]
+
+/-- one poll: the application asks for class `cls1` data; the master's state machine runs at `t0` (writes the request)
+and at the times `waits` (may retransmit it); copies of the request reach the slave at `t :: ts`; at `tR` one of the
+slave's responses reaches the master -/
+structure Poll where
+  cls1 : Bool
+  t0 : Nat
+  waits : List Nat
+  t : Nat
+  ts : List Nat
+  tR : Nat
+
+/-- returns the new system, what the master's link layer reported to its application, the octet strings the master
+wrote, and the class that was actually requested (class 1 takes precedence when an access demand is pending) -/
+def Sys.poll (y : Sys) (k : Poll) : Sys × List Obs × List (List Nat) × Bool :=
+  let c1 := if k.cls1 then { y.c with req1 := true } else { y.c with req2 := true }
+  let r := c1.run y.lm k.t0
+  let f := (txB r.2.2).headD []
+  let w := waitRuns r.1 r.2.1 k.waits
+  let rs := y.s.runMany f (k.t :: k.ts)
+  let R := (txB rs.2).headD []
+  let h := connRecv w.1 w.2.1 R k.tR
+  ({ c := h.1, lm := h.2.1, s := rs.1 }, h.2.2, txB r.2.2 ++ txB w.2.2, c1.req1)
+
+/-- every queued ASDU fits a frame -/
+def View.QueuesFit (v : View) : Prop :=
+  (∀ d ∈ v.c1, 1 + v.p.addrLen + d.length ≤ 255) ∧ (∀ d ∈ v.c2, 1 + v.p.addrLen + d.length ≤ 255)
+
+theorem accept_queuesFit (v : View) (r : Req) (h : v.QueuesFit) : (v.accept r).QueuesFit := by
+  obtain ⟨h1, h2⟩ := h
+  cases r with
+  | data => exact ⟨h1, h2⟩
+  | poll b c =>
+    cases c
+    · exact ⟨h1, fun d hd => h2 d (List.mem_of_mem_tail hd)⟩
+    · exact ⟨fun d hd => h1 d (List.mem_of_mem_tail hd), h2⟩
+
+/-- the response the slave gives to a poll it accepted is one frame -/
+theorem pollBytes_one (v : View) (cls1 : Bool) (hq : v.QueuesOk) (hf : v.QueuesFit) :
+    ∃ R, pollBytes (v.accept (.poll [] cls1)) = [R] := by
+  unfold pollBytes
+  simp only
+  by_cases hu : (v.accept (.poll [] cls1)).userData.length > 0
+  · rw [if_pos hu]
+    have hfit : 1 + (v.accept (.poll [] cls1)).p.addrLen + (v.accept (.poll [] cls1)).userData.length ≤ 255 := by
+      cases cls1
+      · show 1 + v.p.addrLen + (v.c2.head?.getD []).length ≤ 255
+        cases hc : v.c2 with
+        | nil => simp; have := v.p.hA; omega
+        | cons d r => exact hf.2 d (by simp [hc])
+      · show 1 + v.p.addrLen + (v.c1.head?.getD []).length ≤ 255
+        cases hc : v.c1 with
+        | nil => simp; have := v.p.hA; omega
+        | cons d r => exact hf.1 d (by simp [hc])
+    unfold varFrame
+    have : ¬ (1 + (v.accept (.poll [] cls1)).p.addrLen + (v.accept (.poll [] cls1)).userData.length > 255) := by omega
+    simp [this]
+  · rw [if_neg hu]
+    split <;> exact ⟨_, rfl⟩
+
+/-- **one poll**: from a synchronised state, whatever the retransmissions, losses and duplicates (short of the repeat
+timeout, one request and one response getting through), the slave serves the polled queue exactly once, the master
+application receives that ASDU exactly once (or nothing when the queue was empty), every request frame the master
+wrote is the same frame, and the two ends are synchronised again -/
+theorem poll_spec (y : Sys) (k : Poll) (hy : Sync y) (hf : y.s.view.QueuesFit)
+    (hk : ∀ t ∈ k.waits, ¬ t > k.t0 + y.lm.p.tRepeat) :
+    Sync (y.poll k).1 ∧ (y.poll k).1.s.view = y.s.view.accept (.poll [] (k.cls1 || y.c.req1)) ∧
+    (y.poll k).1.lm.p = y.lm.p ∧ (y.poll k).2.2.2 = (k.cls1 || y.c.req1) ∧
+    udOf (y.poll k).2.1 =
+      (if (y.s.view.accept (.poll [] (k.cls1 || y.c.req1))).userData.length > 0
+        then [(y.s.view.accept (.poll [] (k.cls1 || y.c.req1))).userData] else []) ∧
+    (∀ g ∈ (y.poll k).2.2.1, g = pollFrame y.s.view (k.cls1 || y.c.req1) y.s.expectedFcb) := by
+  obtain ⟨c1, hc1⟩ : ∃ c1, c1 = (if k.cls1 then { y.c with req1 := true } else { y.c with req2 := true } : SlaveConn) := ⟨_, rfl⟩
+  have hreq : c1.req1 = (k.cls1 || y.c.req1) := by rw [hc1]; cases k.cls1 <;> simp
+  have hany : c1.req1 = true ∨ c1.req2 = true := by rw [hc1]; cases k.cls1 <;> simp
+  have f1 : c1.pstate = 3 ∧ c1.testFn = false ∧ c1.hasMsg = false ∧ c1.nextFcb = y.c.nextFcb ∧ c1.address = y.c.address := by
+    rw [hc1]; cases k.cls1 <;> exact ⟨hy.idle, hy.noTest, hy.noMsg, rfl, rfl⟩
+  obtain ⟨g1, g2, g3, g4, g5⟩ := f1
+  obtain ⟨cls, hcls⟩ : ∃ cls, cls = (k.cls1 || y.c.req1) := ⟨_, rfl⟩
+  rw [← hcls]
+  rw [← hcls] at hreq
+  obtain ⟨p1, p2, p3⟩ := pri_poll_send c1 y.lm k.t0 g1 g2 g3 hany
+  rw [hreq, g4, g5] at p1 p2
+  simp only [SlaveConn.pcore, Prod.mk.injEq] at p2
+  obtain ⟨q1, q2, q3, q4, q5, q6, q7⟩ := p2
+  -- the frame is the poll frame for the slave's view
+  have hframe : fixedFrame y.lm.p.addrLen (ctrl (pollFc cls) true false y.c.nextFcb true) y.c.address
+      = pollFrame y.s.view cls y.s.view.expectedFcb := by
+    unfold pollFrame
+    show _ = fixedFrame y.s.ll.p.addrLen (ctrl (pollFc cls) true false y.s.expectedFcb true) y.s.ll.address
+    rw [hy.width, hy.addr, hy.bit]
+  rw [hframe] at p1
+  -- waiting
+  obtain ⟨w1, w2, w3⟩ := pollWaits_spec k.waits (c1.run y.lm k.t0).1 (c1.run y.lm k.t0).2.1 q2
+    (by intro t ht; rw [q4, p3]; exact hk t ht)
+  rw [p3, q7, q6, q1, Bool.not_not, hframe] at w3
+  simp only [SlaveConn.pcore, Prod.mk.injEq] at w1
+  obtain ⟨v1, v2, v3, v4, v5, v6, v7⟩ := w1
+  -- the slave
+  obtain ⟨s1, s2, s3⟩ := runMany_poll_once y.s.view cls hy.addrOk hy.queues k.t k.ts y.s rfl
+  obtain ⟨R, hR⟩ := pollBytes_one y.s.view cls hy.queues hf
+  have hhead : (txB (y.s.runMany (pollFrame y.s.view cls y.s.view.expectedFcb) (k.t :: k.ts)).2).headD [] = R := by
+    rw [s3, hR]; simp [List.replicate_succ]
+  -- the response at the master
+  have hpa : (y.s.view.accept (.poll [] cls)).p = y.s.view.p ∧ (y.s.view.accept (.poll [] cls)).address = y.s.view.address := by
+    cases cls <;> exact ⟨rfl, rfl⟩
+  obtain ⟨r1, r2, r3⟩ := poll_response (waitRuns (c1.run y.lm k.t0).1 (c1.run y.lm k.t0).2.1 k.waits).1
+    (waitRuns (c1.run y.lm k.t0).1 (c1.run y.lm k.t0).2.1 k.waits).2.1 (y.s.view.accept (.poll [] cls)) R k.tR
+    (by rw [v2, q2]) (by rw [v5, q5])
+    (by rw [v1, q1, hpa.2]; exact hy.addr) (by rw [w2, p3, hpa.1]; exact hy.width)
+    (by rw [hpa.1, hpa.2]; exact hy.addrOk) (by rw [hR]; simp)
+  have hfh : (txB (c1.run y.lm k.t0).2.2).headD [] = pollFrame y.s.view cls y.s.view.expectedFcb := by rw [p1]; rfl
+  have ht : y.poll k =
+      (⟨(connRecv (waitRuns (c1.run y.lm k.t0).1 (c1.run y.lm k.t0).2.1 k.waits).1
+            (waitRuns (c1.run y.lm k.t0).1 (c1.run y.lm k.t0).2.1 k.waits).2.1 R k.tR).1,
+        (connRecv (waitRuns (c1.run y.lm k.t0).1 (c1.run y.lm k.t0).2.1 k.waits).1
+            (waitRuns (c1.run y.lm k.t0).1 (c1.run y.lm k.t0).2.1 k.waits).2.1 R k.tR).2.1,
+        (y.s.runMany (pollFrame y.s.view cls y.s.view.expectedFcb) (k.t :: k.ts)).1⟩,
+       (connRecv (waitRuns (c1.run y.lm k.t0).1 (c1.run y.lm k.t0).2.1 k.waits).1
+            (waitRuns (c1.run y.lm k.t0).1 (c1.run y.lm k.t0).2.1 k.waits).2.1 R k.tR).2.2,
+       txB (c1.run y.lm k.t0).2.2 ++ txB (waitRuns (c1.run y.lm k.t0).1 (c1.run y.lm k.t0).2.1 k.waits).2.2,
+       cls) := by
+    unfold Sys.poll
+    simp only [← hc1, hfh, hhead, hreq]
+  rw [ht]
+  simp only [SlaveConn.idleCore, Prod.mk.injEq] at r2
+  obtain ⟨b1, b2, b3, b4, b5⟩ := r2
+  refine ⟨?_, s1, (by show _ = y.lm.p; rw [r3, w2, p3]), rfl, r1, ?_⟩
+  · constructor
+    · exact b2
+    · exact b4
+    · show _ = false
+      rw [b3, v3, q3]
+    · show (y.s.runMany _ (k.t :: k.ts)).1.view.expectedFcb = _
+      rw [s1, accept_toggles, b5, v6, q6]
+      show (!y.s.expectedFcb) = !y.c.nextFcb
+      rw [hy.bit]
+    · show _ = (y.s.runMany _ (k.t :: k.ts)).1.view.address
+      rw [s1, hpa.2, b1, v1, q1]; exact hy.addr
+    · show _ = (y.s.runMany _ (k.t :: k.ts)).1.view.p.addrLen
+      rw [s1, hpa.1, r3, w2, p3]; exact hy.width
+    · show AddrOk (y.s.runMany _ (k.t :: k.ts)).1.view.p.addrLen (y.s.runMany _ (k.t :: k.ts)).1.view.address
+      rw [s1, hpa.1, hpa.2]; exact hy.addrOk
+    · rw [s1]; exact accept_queuesOk _ _ hy.queues
+  · intro g hg
+    show g = pollFrame y.s.view cls y.s.view.expectedFcb
+    rcases List.mem_append.mp hg with hg | hg
+    · rw [p1] at hg; simpa using hg
+    · exact w3 g hg
+
+def Sys.polls (y : Sys) : List Poll → Sys × List Obs × List Bool
+  | [] => (y, [], [])
+  | k :: ks =>
+    let r := y.poll k
+    let r2 := Sys.polls r.1 ks
+    (r2.1, r.2.1 ++ r2.2.1, r.2.2.2 :: r2.2.2)
+
+/-- the specification of the slave's queues under a sequence of polls (classes as actually requested): each poll
+takes the oldest entry of its class, if there is one -/
+def View.serve (v : View) : List Bool → View × List (Bool × List Nat)
+  | [] => (v, [])
+  | c :: cs =>
+    let v1 := v.accept (.poll [] c)
+    let r := View.serve v1 cs
+    (r.1, (if v1.userData.length > 0 then [(c, v1.userData)] else []) ++ r.2)
+
+/-- **every poll sequence**: the master application receives exactly what the specification takes from the
+slave's queues, in that order; the stations end synchronised -/
+theorem polls_spec : ∀ (ks : List Poll) (y : Sys), Sync y → y.s.view.QueuesFit →
+    (∀ k ∈ ks, ∀ t ∈ k.waits, ¬ t > k.t0 + y.lm.p.tRepeat) →
+    Sync (y.polls ks).1 ∧ (y.polls ks).1.s.view = (y.s.view.serve (y.polls ks).2.2).1 ∧
+    udOf (y.polls ks).2.1 = ((y.s.view.serve (y.polls ks).2.2).2.map (·.2)) := by
+  intro ks
+  induction ks with
+  | nil => intro y hy _ _; exact ⟨hy, rfl, rfl⟩
+  | cons k ks ih =>
+    intro y hy hf hks
+    obtain ⟨a1, a2, a3, a4, a5, _⟩ := poll_spec y k hy hf (hks k (by simp))
+    obtain ⟨b1, b2, b3⟩ := ih (y.poll k).1 a1 (by rw [a2]; exact accept_queuesFit _ _ hf)
+      (by intro k' hk' t ht; rw [a3]; exact hks k' (by simp [hk']) t ht)
+    unfold Sys.polls
+    simp only [udOf_append]
+    rw [a4]
+    unfold View.serve
+    simp only
+    rw [← a2, ← a4]
+    refine ⟨b1, b2, ?_⟩
+    rw [b3, a5, a4, a2]
+    split <;> simp
+
+/-- **first-in first-out, exactly once, per class**: what the specification hands out for one class is the
+beginning of that class's queue, as long as the number of polls of the class -/
+theorem serve_fifo (cls : Bool) : ∀ (cs : List Bool) (v : View), v.QueuesOk →
+    ((v.serve cs).2.filter (fun x => x.1 == cls)).map (·.2) = (if cls then v.c1 else v.c2).take (cs.count cls) := by
+  intro cs
+  induction cs with
+  | nil => intro v _; simp [View.serve]
+  | cons c cs ih =>
+    intro v hq
+    have ih' := ih (v.accept (.poll [] c)) (accept_queuesOk _ _ hq)
+    unfold View.serve
+    simp only [List.filter_append, List.map_append]
+    rw [ih']
+    cases c <;> cases cls
+    · -- class 2 polled, class 2 asked
+      show _ = List.take (List.count false (false :: cs)) v.c2
+      cases hc : v.c2 with
+      | nil => simp [View.accept, hc]
+      | cons d r =>
+        have hd : d ≠ [] := hq.2 d (by simp [hc])
+        have hl : d.length > 0 := by cases d with | nil => exact absurd rfl hd | cons => simp
+        simp [View.accept, hc, hl]
+    · show _ = List.take (List.count true (false :: cs)) v.c1
+      have : (v.accept (.poll [] false)).c1 = v.c1 := rfl
+      simp only [this, if_true]
+      have hcnt : List.count true (false :: cs) = List.count true cs := by simp
+      rw [hcnt]
+      split <;> simp
+    · show _ = List.take (List.count false (true :: cs)) v.c2
+      have : (v.accept (.poll [] true)).c2 = v.c2 := rfl
+      simp only [this, Bool.false_eq_true, if_false]
+      have hcnt : List.count false (true :: cs) = List.count false cs := by simp
+      rw [hcnt]
+      split <;> simp
+    · show _ = List.take (List.count true (true :: cs)) v.c1
+      cases hc : v.c1 with
+      | nil => simp [View.accept, hc]
+      | cons d r =>
+        have hd : d ≠ [] := hq.1 d (by simp [hc])
+        have hl : d.length > 0 := by cases d with | nil => exact absurd rfl hd | cons => simp
+        simp [View.accept, hc, hl]
 
 end Iec.Link101
